@@ -235,7 +235,7 @@ class Attribute:
 
         # count
         count = self.count
-        if count and count != 1:
+        if count is not None and count != 1:  # (an empty list of values has the count 0)
             bts += write_struct_uvari(count)
             characteristics += '1'
         else:
@@ -288,7 +288,7 @@ class Attribute:
         rc = self.representation_code
         value = self._value
 
-        if value is not None:
+        if value is not None and not (isinstance(value, (list, tuple)) and not self.flatten_list(value)):
             if isinstance(value, (list, tuple)):
                 for val in self.flatten_list(value):
                     bts += write_struct(rc, val)
